@@ -17,6 +17,8 @@ import (
 	"encoding/json"
 	"fmt"
 	"io"
+	"net/http"
+	"net/http/httptest"
 	"os"
 	"path/filepath"
 	"sort"
@@ -619,7 +621,7 @@ func TestVerif(t *testing.T) {
 						isDest = false
 					}
 				}
-				if !under && !(e.K == "dir" && isDest) {
+				if !under && !isDest { // an entry naming the destination itself creates nothing outside
 					escaping = true
 				}
 			}
@@ -694,3 +696,86 @@ var vfixedArch = []varch{
 }
 
 var _ = bytes.NewReader
+
+// ---------- concurrency smoke test of the lock protocol ----------
+// 2-4 goroutines ask for the same library at once (loopback server); afterwards
+// the destination must hold exactly one complete copy and no temporary
+// directories or lock files may be left behind.  Real schedules are sampled only.
+func TestVerifLock(t *testing.T) {
+	if os.Getenv("VERIF_OUT") == "" {
+		t.Skip("VERIF_OUT not set")
+	}
+	rounds, _ := strconv.Atoi(os.Getenv("VERIF_LOCK_ROUNDS"))
+	if rounds == 0 {
+		rounds = 30
+	}
+	f, err := os.OpenFile(os.Getenv("VERIF_OUT")+".lock.jsonl", os.O_CREATE|os.O_WRONLY|os.O_TRUNC, 0o644)
+	if err != nil {
+		t.Fatal(err)
+	}
+	defer f.Close()
+	enc := json.NewEncoder(f)
+	root, err := os.MkdirTemp("", "c20l")
+	if err != nil {
+		t.Fatal(err)
+	}
+	defer os.RemoveAll(root)
+	files := map[string]string{"lib-1.0/a.c": "int a;\n", "lib-1.0/inc/a.h": "#define A 1\n", "lib-1.0/big": strings.Repeat("0123456789abcdef", 4096)}
+	names := []string{"lib-1.0/a.c", "lib-1.0/inc/a.h", "lib-1.0/big"}
+	specs := []vspec{{"lib-1.0", "dir", ""}, {"lib-1.0/inc", "dir", ""}}
+	for _, n := range names {
+		specs = append(specs, vspec{n, "reg", files[n]})
+	}
+	ap := filepath.Join(root, "lib-1.0.tar.gz")
+	if err := vwriteTarGz(ap, specs); err != nil {
+		t.Fatal(err)
+	}
+	blob, _ := os.ReadFile(ap)
+	srv := vserve(blob)
+	defer srv.Close()
+	for round := 0; round < rounds; round++ {
+		base := filepath.Join(root, "r"+strconv.Itoa(round))
+		dst := filepath.Join(base, "cache", "lib")
+		k := 2 + round%3
+		errs := make([]error, k)
+		done := make(chan int, k)
+		for g := 0; g < k; g++ {
+			go func(g int) {
+				errs[g] = checkDownloadAndExtractLib(srv.URL+"/lib-1.0.tar.gz", dst, "lib-1.0")
+				done <- g
+			}(g)
+		}
+		for g := 0; g < k; g++ {
+			<-done
+		}
+		problems := []string{}
+		for g, e := range errs {
+			if e != nil {
+				problems = append(problems, fmt.Sprintf("caller %d: %v", g, e))
+			}
+		}
+		for _, n := range names {
+			b, err := os.ReadFile(filepath.Join(dst, strings.TrimPrefix(n, "lib-1.0/")))
+			if err != nil || string(b) != files[n] {
+				problems = append(problems, "incomplete: "+n)
+			}
+		}
+		ents, _ := os.ReadDir(filepath.Join(base, "cache"))
+		left := []string{}
+		for _, e := range ents {
+			if e.Name() != "lib" {
+				left = append(left, e.Name())
+			}
+		}
+		if len(left) > 0 {
+			problems = append(problems, fmt.Sprintf("left behind: %v", left))
+		}
+		enc.Encode(map[string]any{"kind": "lock", "round": round, "callers": k, "problems": problems})
+	}
+}
+
+func vserve(blob []byte) *httptest.Server {
+	return httptest.NewServer(http.HandlerFunc(func(w http.ResponseWriter, r *http.Request) {
+		w.Write(blob)
+	}))
+}
